@@ -315,6 +315,16 @@ def run(prog: Program, rep: Report, tier: str) -> None:
     create_rules(prog, rep)
     particle_variable_rules(prog, rep)
     doc_agreement(prog, rep)
+    # the last file is completed (particle variables written) only when the last write is recognised as
+    # the last one: the predicted number of records must equal the number of trigger hits
+    rep.rule("R06.8", "file completion: predicted number of records = number of writes, for any duration (shared with C07 R07.1/R07.2)", 6)
+    from . import c07
+
+    sub = Report(pid="C06")
+    c07.trigger_rule(prog, sub)
+    c07.trip_count_rule(prog, sub)
+    for o in sub.obligations:
+        rep.add("R06.8", o.func, f"[{o.rule}] {o.construct}", o.verdict == "ok" if o.verdict != "undecided" else None, o.what, o.loc)
 
 
 from ..selftest import Mut  # noqa: E402
